@@ -148,4 +148,23 @@ example : SolverValid .vi { problemOk := true, gamma := 0, eps := 1000000, maxbs
 example : validateSolver .periodic { problemOk := true, gamma := 1, eps := 1, maxbs := 1, f := 0, m := 0, verbose := 0, testOk := true, period := 1, budget := 1 } = .error .valueError := by
   decide +kernel
 
+/-- **the progress format is a valid format specifier for every positive threshold of any magnitude**: the precision is
+    between 0 and `max_decimals` whatever ⌊log10 threshold⌋ is (so `solve()` can log its measure for every ε > 0) … -/
+theorem decimalPlaces_valid (e : Int) (m : Nat) : 0 ≤ decimalPlaces e m ∧ decimalPlaces e m ≤ (m : Int) := by
+  unfold decimalPlaces
+  constructor
+  · exact le_max_left _ _
+  · apply max_le
+    · exact Int.natCast_nonneg m
+    · exact min_le_right _ _
+
+/-- … and, unless capped by `max_decimals`, it shows one digit beyond the leading digit of the threshold: for a threshold
+    10^e ≤ ε < 10^(e+1) with e ≤ 1 the precision is 1 − e -/
+theorem decimalPlaces_shows_threshold (e : Int) (m : Nat) (he : e ≤ 1) (hm : -e + 1 ≤ (m : Int)) :
+    decimalPlaces e m = 1 - e := by
+  unfold decimalPlaces
+  rw [min_eq_left hm, max_eq_right (by omega)]; omega
+
+example : decimalPlaces 2 10 = 0 ∧ decimalPlaces (-6) 10 = 7 ∧ decimalPlaces (-30) 10 = 10 := by decide
+
 end MdpaxV.C20
